@@ -377,7 +377,12 @@ class WebsocketSession(object):
             return
 
         # Connected to the server, but not yet upgraded to websockets
-        yield events.Connected(url, proxy=proxy)
+        try:
+            yield events.Connected(url, proxy=proxy)
+        except GeneratorExit:
+            # The consumer stopped iterating, don't leak the socket
+            self._close_socket()
+            raise
 
         selector = self._selector_cls(sock)
         log.debug('%r created', selector)
@@ -426,4 +431,6 @@ class WebsocketSession(object):
             self._close_socket()
             yield events.Disconnected(graceful=True)
         finally:
+            # A no-op unless the consumer abandoned the generator
+            self._close_socket()
             selector.close()
